@@ -177,11 +177,12 @@ class WagnerSoftDecisionDecoder(BaseBlockDecoder[BaseBlockCodeEncoder]):
             *batch_indices, block_idx = indices.tolist()
 
             # Find the least reliable bit in this block
-            block_values = received[batch_indices + [block_idx]]
+            block_values = received[tuple(batch_indices + [block_idx])]
             least_reliable_idx = torch.argmin(torch.abs(block_values))
 
             # Flip the least reliable bit
-            hard_decisions[batch_indices + [block_idx, least_reliable_idx]] = 1 - hard_decisions[batch_indices + [block_idx, least_reliable_idx]]
+            flip_idx = tuple(batch_indices + [block_idx, int(least_reliable_idx)])
+            hard_decisions[flip_idx] = 1 - hard_decisions[flip_idx]
 
         # Extract message bits (assuming systematic form where message bits come first)
         decoded = hard_decisions[..., : self.code_dimension]
